@@ -4,7 +4,7 @@ import N0Verif.Proofs.CompareTransformKeyed
 /-!
 # C10 — exclude_xpaths, compare_only and transform only narrow or map what is compared
 
-Model: `N0Verif/Model/Compare.lean` (the code with fix patches C07-a, C08-a, C09-a applied).
+Model: `N0Verif/Model/Compare.lean` (the code with fix patches C07-a, C08-a, C09-a, C07-b, C07-c, C09-b, C10-a applied).
 `Res.diffPart` = number of `differences` lines and the four difference lists;
 `Res.filterPaths keep` keeps the entries whose path satisfies `keep` (and recounts the lines).
 -/
@@ -70,37 +70,81 @@ theorem C10_transform_verdict (cfg : Cfg) (hd : cfg.direct = true) (hl : LeafTra
     verdict (compareTop cfg a b) = verdict (compareTop { cfg with tr := [] } (mapT cfg [] a) (mapT cfg [] b)) :=
   transform_direct_verdict cfg hd hl a b
 
-/-- the full-strength statement (both entry points); refuted for the keyed entry point by
-`C10_transform_keyed_cex` — finding C10-a, not a gap -/
+/-- the full-strength statement (both entry points, every tree); still false for the keyed entry point on trees
+with a list nested in a list (`C10_transform_keyed_nested_cex`) and with a composite key
+(`C10_transform_keyed_ck_cex`); proved for the keyed entry point on lists of records and lists of leaves:
+`C10_transform_keyed` -/
 def C10_transform_stmt : Prop :=
   ∀ (cfg : Cfg), LeafTransform cfg → ∀ a b : Val,
     TrERel (compareTop cfg a b) (compareTop (noTransf cfg) (mapT cfg [] a) (mapT cfg [] b))
 
-/-- finding C10-a: the keyed compare pairs non-record list items by `str()` of the *untransformed* value:
-`{'a': ['A']}` vs `{'a': ['a']}` with `('//a', lower)` reports two differences although the mapped trees are equal -/
-theorem C10_transform_keyed_cex :
-    (match compareTop trCexCfg trCexA trCexB with | .ok r => r.diffs | .error _ => 0) = 2 ∧
+/-- fix C10-a: the keyed compare pairs non-record list items by the key of the *transformed* value:
+`{'a': ['A']}` vs `{'a': ['a']}` with `('//a', lower)` reports nothing, as on the mapped trees (before the fix:
+two unique entries) -/
+theorem C10_transform_keyed_example :
+    (match compareTop trCexCfg trCexA trCexB with | .ok r => r.diffs | .error _ => 1) = 0 ∧
       mapT trCexCfg [] trCexA = mapT trCexCfg [] trCexB ∧
       (match compareTop { trCexCfg with tr := [] } (mapT trCexCfg [] trCexA) (mapT trCexCfg [] trCexB) with
         | .ok r => r.diffs | .error _ => 1) = 0 :=
-  transform_keyed_cex
+  transform_keyed_example
 
-/-- **C10 (transform, keyed/default comparison, lists of records).**  For `compare` without a composite key
-(`cfg.direct = false`, `cfg.ck` empty), `LeafTransform cfg`, every other option and flag record, on trees all of
-whose list items are records (`recOnly`: every item of every list, at every depth, is a dictionary — then every
-item has the key `''`, the n-th record of one list meets the n-th record of the other and the `str()`-keying of
-the untransformed values, finding C10-a, plays no role): the run with `transform` on `(a, b)` and the run without
-it on the mapped trees raise the same exception or return results of the same shape. -/
-theorem C10_transform_keyed_records (cfg : Cfg) (hd : cfg.direct = false) (hck : cfg.ck.pats.isEmpty = true)
+/-- what stays outside: a list nested in a list whose leaves are transformed by a pattern naming the index
+(`//a[0]`): the outer items `['A']`, `['a']` are keyed by their own JSON text and do not meet, while the mapped
+trees are equal -/
+theorem C10_transform_keyed_nested_cex :
+    LeafTransform trNestCfg ∧
+    (match compareTop trNestCfg trNestA trNestB with | .ok r => r.diffs | .error _ => 0) = 2 ∧
+      mapT trNestCfg [] trNestA = mapT trNestCfg [] trNestB ∧
+      (match compareTop { trNestCfg with tr := [] } (mapT trNestCfg [] trNestA) (mapT trNestCfg [] trNestB) with
+        | .ok r => r.diffs | .error _ => 1) = 0 :=
+  ⟨trNestCfg_leaf, transform_keyed_nested_cex⟩
+
+theorem C10_transform_refuted : ¬ C10_transform_stmt := by
+  intro h
+  have h1 := h trNestCfg trNestCfg_leaf trNestA trNestB
+  obtain ⟨c1, c2, c3⟩ := transform_keyed_nested_cex
+  cases hc : compareTop trNestCfg trNestA trNestB with
+  | error e => rw [hc] at c1; simp at c1
+  | ok r =>
+    cases hc' : compareTop (noTransf trNestCfg) (mapT trNestCfg [] trNestA) (mapT trNestCfg [] trNestB) with
+    | error e => rw [hc, hc'] at h1; exact h1.elim
+    | ok r' =>
+      rw [hc, hc'] at h1
+      simp only [tr_erel_ok_ok, Res.shape, Prod.mk.injEq] at h1
+      rw [hc] at c1
+      change (match compareTop (noTransf trNestCfg) (mapT trNestCfg [] trNestA) (mapT trNestCfg [] trNestB) with
+        | .ok r => r.diffs | .error _ => 1) = 0 at c3
+      rw [hc'] at c3
+      simp only at c1 c3
+      omega
+
+/-- **C10 (transform, keyed/default comparison, lists of records and lists of leaves).**  For `compare` without a
+composite key (`cfg.direct = false`, `cfg.ck` empty), `LeafTransform cfg`, every other option and flag record, on
+trees every list of which — at every depth — holds records only or leaves only (`recOnly`; a leaf is `None` or a
+scalar): the run with `transform` on `(a, b)` and the run without it on the mapped trees raise the same exception or
+return results of the same shape.  In a list of records every item has the key `''` and the n-th record meets the
+n-th record; in a list of leaves (fix C10-a) an item is keyed by the JSON text of its TRANSFORMED value — the key
+the same item has in the mapped tree —, so both runs pair the same positions, `[i]<>[j]` included, and two leaves
+meet iff their transformed values have the same type and value. -/
+theorem C10_transform_keyed (cfg : Cfg) (hd : cfg.direct = false) (hck : cfg.ck.pats.isEmpty = true)
     (hl : LeafTransform cfg) (a b : Val) (ha : recOnly a = true) (hb : recOnly b = true) :
     TrERel (compareTop cfg a b) (compareTop (noTransf cfg) (mapT cfg [] a) (mapT cfg [] b)) :=
   compareTop_tr_keyed cfg hd hck hl a b ha hb
 
 /-- … in particular the verdict is the verdict on the mapped trees -/
-theorem C10_transform_keyed_records_verdict (cfg : Cfg) (hd : cfg.direct = false) (hck : cfg.ck.pats.isEmpty = true)
+theorem C10_transform_keyed_verdict (cfg : Cfg) (hd : cfg.direct = false) (hck : cfg.ck.pats.isEmpty = true)
     (hl : LeafTransform cfg) (a b : Val) (ha : recOnly a = true) (hb : recOnly b = true) :
     verdict (compareTop cfg a b) = verdict (compareTop { cfg with tr := [] } (mapT cfg [] a) (mapT cfg [] b)) :=
   transform_keyed_verdict cfg hd hck hl a b ha hb
+
+/-- non-vacuity for lists of leaves: `{'a': ['A', 'b', 1]}` vs `{'a': [1, 'B', 'a', 'c']}` under `('//a', lower)`:
+the three items meet across positions, `'c'` is unique -/
+def trLeafA : Val := .dict .n0 [(['a'], .list .n0 [.str ['A'], .str ['b'], .int 1])]
+def trLeafB : Val := .dict .n0 [(['a'], .list .n0 [.int 1, .str ['B'], .str ['a'], .str ['c']])]
+example : recOnly trLeafA = true ∧ recOnly trLeafB = true ∧ recOnly trCexA = true := by decide
+example : (compareTop trCexCfg trLeafA trLeafB).map (fun r => (r.diffs, r.otherUnique.map (·.path)))
+    = .ok (1, [[.key ['a'], .idx 3]]) := by decide
+example : (compareTop { trCexCfg with tr := [] } trLeafA trLeafB).map (·.diffs) = .ok 5 := by decide
 
 /-- with a composite key the keyed statement fails even on lists of records: the key is built from the
 TRANSFORMED field, which must be a `str` — the identity function on the `int` key field `id` raises `TypeError`
